@@ -3,6 +3,8 @@ import TwistedModel.Dns.Rfc1035
 /-!
 Driver glue for C32 (text format: see `TwistedModel/Dns/Text.lean`).
   `C32 rt <msg>`    → `enc=<hex> dec=<msg'>`  Message.toStr then Message.fromStr (model of Twisted) | `!raised X`
+  `C32 rt2 <msg>`   → `enc=<hex> dec=<msg'>`  toStr, fromStr, the decoded object gets the maxSize back, toStr, fromStr
+                      (a decoded message is encoded again: the forwarder's path) | `!raised X`
   `C32 edns <emsg>` → `enc=<hex> dec=<emsg'>` _EDNSMessage.toStr then fromStr
   `C32 opt <opt>`   → `enc=<hex> dec=<opt'>`  _OPTHeader.encode then decode
   `C32 dec <hex>`   → `<msg'>` | `!raised X`  Message.fromStr
@@ -25,6 +27,19 @@ def handle (args : List String) : String :=
       match encodeMsg m with
       | .error e => showErr e
       | .ok bs => s!"enc={hex bs} dec=" ++ showDec (decodeMsg bs)
+  | "rt2" :: toks =>
+    match parseMsg toks with
+    | none => "bad-op"
+    | some m =>
+      match encodeMsg m with
+      | .error e => showErr e
+      | .ok bs1 =>
+        match decodeMsg bs1 with
+        | .error e => showErr e
+        | .ok d =>
+          match encodeMsg { d with maxSize := m.maxSize } with
+          | .error e => showErr e
+          | .ok bs => s!"enc={hex bs} dec=" ++ showDec (decodeMsg bs)
   | "edns" :: toks =>
     match parseEMsg toks with
     | none => "bad-op"
